@@ -54,6 +54,7 @@ type ConvergeResult struct {
 func (w *World) Converge(ns, name string, pendingChanges int) ConvergeResult {
 	w.Coop = true
 	w.tracef("--- convergence phase for %s/%s ---", ns, name)
+	w.forgetFailedPodBackoff(ns, name)
 	res := ConvergeResult{}
 	e := kit.GetEDS(w.S, ns, name)
 	if e == nil {
@@ -189,6 +190,22 @@ func (w *World) Converge(ns, name string, pendingChanges int) ConvergeResult {
 	}
 	w.Mon.AtFixpoint(ns, name, live, res)
 	return res
+}
+
+// forgetFailedPodBackoff: the controller deletes a Failed pod only when its per-node backoff
+// (10 s doubling to 15 min, in memory) allows; after a hostile phase that wait can exceed any round
+// bound, and waiting is not the progress the bounds are about. When Failed pods are left, the
+// cooperative phases therefore start with a controller process restart (a realistic event that
+// empties the in-memory backoff), which is recorded in the trace and counted.
+func (w *World) forgetFailedPodBackoff(ns, name string) {
+	for _, p := range w.DaemonPods(ns, name) {
+		if p.Status.Phase == corev1.PodFailed {
+			w.Ctl.Rebuild()
+			w.Ctx.Count("sim.restart-before-cooperative-phase")
+			w.tracef("*** controller process restarted before the cooperative phase (Failed pods left; in-memory backoff lost)")
+			return
+		}
+	}
 }
 
 func classify(why string) string {
@@ -403,6 +420,7 @@ func (w *World) CanarySteadyState(ns, name string) {
 	}
 	w.Coop = true
 	w.tracef("--- canary steady-state phase for %s/%s ---", ns, name)
+	w.forgetFailedPodBackoff(ns, name)
 	if oracle.RSCond(up, v1.ConditionTypeCanaryPaused) {
 		if err := w.Kubectl("canary-unpause", ns, name); err != nil {
 			return
